@@ -74,6 +74,10 @@ SCENARIOS = {
     # M6 - a function declared with an empty output row
     "M6": Scenario("M6", "module", [], ops=("Not",), loads=(), containers=(), max_depth=2,
                    funcs=(("nothing", [B], []), ("main", [B], None)), extra={"fn_ops": ("call",)}),
+    # M7 - a function declared *after* the function that calls / loads it was opened (forward reference to a declaration)
+    "M7": Scenario("M7", "module", [], ops=("Not",), loads=(), containers=("nested",), max_depth=2,
+                   funcs=(("helper", [B], [B]), ("main", [B], None)),
+                   extra={"fn_ops": ("call", "loadfn"), "late_decls": (("late", ["Poly", [], ["G", [B], [B], []]], [([], [B], [B])]),)}),
     # K2 - tracked builder over a user extension with linear and mixed-type gates (circuit style)
     "K2": Scenario("K2", "tracked", [Q, Q, B], ops=("H", "CX", "Measure", "CFlip"), loads=(), max_depth=1, extra={"track_later": True}),
     # Q1 - the same gates in a plain dataflow graph with a conditional on a measurement result
